@@ -15,42 +15,58 @@ open MythVerif.Wsq
 
 def ownerLocked : OPc → Bool
   | .po4 _ | .po5 _ _ | .po5b _ _ | .po6 _ | .po7 | .po8 | .po9 => true
+  | .po5c _ _ | .po5d _ => true
+  | .assertFail | .cl1 | .cl2 | .cl3 => true
   | .stuckL | .pt1 _ | .pt6 _ | .pt7 _ _ | .pt8 _ _ | .pt9 => true
+  | .stuck | .pub _ | .pum _ _ | .pus _ _ | .puv _ _ | .pux _ _ | .pt2 _ | .pt3 _ _ | .pt4 _ _ | .pt5 _ _ => true
   | _ => false
 
 def thiefLocked : TPc → Bool
   | .tk1 | .tkf _ | .tk2 _ | .tk3 _ _ | .tk4 _ | .tk5 _ | .tk6 => true
   | .tp1 _ | .tp1b _ | .tp2 _ _ | .tp3 _ | .tp4 _ => true
+  | .wk1 | .wkf _ | .wk2 _ | .wk3 _ | .wkd _ _ | .wk4 _ | .wk4u _ | .wk5 _ | .wk6 => true
+  | .vc1 | .vk1 | .vkf _ | .vk2 _ | .vk3 _ | .vk4 _ _ | .vk5 _ | .vu => true
   | _ => false
 
 /-- the owner is between operations or at the start of one: its buffer may still hold the
     stores of the last push -/
 def carry : OPc → Bool
-  | .idle | .stuck | .pu0 _ | .pu0f _ _ | .pq | .po1 | .ptl _ => true
+  | .idle | .pu0 _ | .pu0f _ _ | .pq | .po1 | .ptl _ | .cll => true
   | _ => false
 
 /-- program counters at which a thief / passer may have buffered stores -/
 def mayBuf : TPc → Bool
   | .tkf _ | .tk6 | .tp3 _ | .tp4 _ => true
+  | .wkf _ | .wk6 | .wk4u _ | .vkf _ | .vk5 _ | .vu => true
   | _ => false
 
 /-- lock-holding program counters of a thief at which no increment of `base` is pending or visible -/
 def notTrans : TPc → Bool
   | .tk1 | .tk3 _ _ | .tk4 _ => true
   | .tp1 _ | .tp1b _ | .tp2 _ _ | .tp3 _ | .tp4 _ => true
+  | .wk1 | .wk4 _ | .wk4u _ | .vc1 | .vk1 => true
   | _ => false
 
-/-- the reset path: memory `top` / `base` lag behind the ghosts until the unlock fence -/
+/-- the reset path and the part of a locked section that follows a re-centring `memmove`: memory
+    `top` / `base` lag behind the ghosts until the buffer has drained (at the latest at the unlock
+    fence); the memory-side window is complete there (nobody else may look) -/
 def resetting : OPc → Bool
-  | .po8 | .po9 => true
+  | .po8 | .po9 | .cl2 | .cl3 => true
+  | .pus _ _ | .puv _ _ | .pux _ _ | .pt4 _ _ | .pt5 _ _ | .pt6 _ | .pt7 _ _ | .pt8 _ _ | .pt9 => true
+  | _ => false
+
+/-- the owner has stored the decremented `top` of a pop and has neither committed the fast path
+    nor taken the lock yet -/
+def popWin : OPc → Bool
+  | .pof _ | .po2 _ | .pol _ => true
   | _ => false
 
 def ownerFlight : OPc → Bool
-  | .po3 _ _ | .po5 _ _ | .po5b _ _ | .po6 _ => true
+  | .po3 _ _ | .po5 _ _ | .po5b _ _ | .po6 _ | .po5c _ _ | .po5d _ => true
   | _ => false
 
 def thiefFlight : TPc → Bool
-  | .tk3 _ _ | .tk4 _ => true
+  | .tk3 _ _ | .tk4 _ | .wk4 _ | .wk4u _ => true
   | _ => false
 
 /-! Buffer shapes.  They are functions of the fields they mention (not of the state) and are kept
@@ -72,7 +88,10 @@ def PofShape (bufO : List Sto) (top : Int) (ptr : Int → Option Elem) (A : List
   (bufO = [.top (t + 1), .top t] ∧ top = t ∧ A ≠ [] ∧ ptr t = A.getLast?) ∨
   (∃ e, bufO = [.ptr t (some e), .top (t + 1), .top t] ∧ top = t ∧ A.getLast? = some e)
 
-def Po6Shape (bufO : List Sto) (lt : Int) : Prop := bufO = [] ∨ bufO = [.ptr lt none]
+def Po5cShape (bufO : List Sto) (lt : Int) : Prop := bufO = [] ∨ bufO = [.ptr lt none]
+
+def Po6Shape (bufO : List Sto) (lt : Int) : Prop :=
+  bufO = [] ∨ bufO = [.ptr lt none] ∨ bufO = [.ptr lt none, .cache none] ∨ bufO = [.cache none]
 
 def Po8Shape (bufO : List Sto) (top h : Int) : Prop := bufO = [.top h] ∨ (bufO = [] ∧ top = h)
 
@@ -85,6 +104,36 @@ def InsShape (buf : List Sto) (ptr : Int → Option Elem) (lb : Int) : Prop :=
   (∃ e, buf = [.ptr (lb - 1) (some e), .baseI (lb - 1) e]) ∨
   (∃ e, buf = [.baseI (lb - 1) e] ∧ ptr (lb - 1) = some e) ∨ buf = []
 
+/-- after the `memmove` of a re-centring: the shift entry is buffered (`sh` = its offset, memory
+    and ghosts still at the old place) or drained (ghosts moved, memory `top` / `base` lag by `off`) -/
+def Rc1Shape (buf : List Sto) (top base lb lt sh off : Int) : Prop :=
+  (buf = [.shift lb lt off] ∧ sh = off ∧ top = lt ∧ base = lb) ∨
+  (buf = [] ∧ sh = 0 ∧ top = lt - off ∧ base = lb - off)
+
+/-- after `q->top += offset` -/
+def Rc2Shape (buf : List Sto) (top base lb lt sh off : Int) : Prop :=
+  (buf = [.shift lb lt off, .top (lt + off)] ∧ sh = off ∧ base = lb) ∨
+  (buf = [.top lt] ∧ sh = 0 ∧ base = lb - off) ∨
+  (buf = [] ∧ sh = 0 ∧ top = lt ∧ base = lb - off)
+
+/-- after `q->base += offset`: what is left of the three entries of a re-centring, followed by the
+    stores `suf` issued since (`lb + sh`, `lt + sh` are the owner's view of `base`, `top`) -/
+def RcPre (buf suf : List Sto) (top lb lt sh : Int) : Prop :=
+  buf = .shift lb lt sh :: .top (lt + sh) :: .base (lb + sh) :: suf ∨
+  (buf = .top lt :: .base lb :: suf ∧ sh = 0) ∨
+  (buf = .base lb :: suf ∧ sh = 0 ∧ top = lt)
+
+/-- a re-centring (if any) in the buffer or completely drained, nothing issued since -/
+def RcShape (buf : List Sto) (top base lb lt sh : Int) : Prop :=
+  RcPre buf [] top lb lt sh ∨ (buf = [] ∧ sh = 0 ∧ top = lt ∧ base = lb)
+
+/-- clear after its store of `base` -/
+def Cl2Shape (bufO : List Sto) (base h : Int) : Prop := bufO = [.base h] ∨ (bufO = [] ∧ base = h)
+
+/-- clear after its store of `top` -/
+def Cl3Shape (bufO : List Sto) (top base h : Int) : Prop :=
+  bufO = [.base h, .top h] ∨ (bufO = [.top h] ∧ base = h) ∨ (bufO = [] ∧ top = h ∧ base = h)
+
 /-- a thief's increment of `base` is buffered (not visible: `tr = false`) or drained (`tr = true`) -/
 def TkfShape (buf : List Sto) (tr : Bool) (b : Int) : Prop :=
   (buf = [.base (b + 1)] ∧ tr = false) ∨ (buf = [] ∧ tr = true)
@@ -93,13 +142,24 @@ def TkfShape (buf : List Sto) (tr : Bool) (b : Int) : Prop :=
 def Tk6Shape (buf : List Sto) (tr : Bool) (lb : Int) : Prop :=
   (buf = [.base lb] ∧ tr = true) ∨ (buf = [] ∧ tr = false)
 
+/-- wsapi take after its store of the cache word -/
+def Wk4uShape (buf : List Sto) : Prop := buf = [.cache none] ∨ buf = []
+
+/-- wsapi peek before the roll-back of `base`: the store of the cache word may be pending -/
+def Vk5Shape (buf : List Sto) : Prop := buf = [] ∨ ∃ r, buf = [.cache r]
+
+/-- wsapi peek before its unlock: cache word and roll-back pending, or the roll-back, or nothing -/
+def VuShape (buf : List Sto) (tr : Bool) (lb : Int) : Prop :=
+  (∃ r, buf = [.cache r, .base lb] ∧ tr = true) ∨ (buf = [.base lb] ∧ tr = true) ∨ (buf = [] ∧ tr = false)
+
 structure Inv (s : St) : Prop where
   cfg   : s.cfg = FenceCfg.code
   lockO : s.lock = .owner ↔ ownerLocked s.opc = true
   lockT : ∀ p, s.lock = .thief p ↔ thiefLocked (s.tpc p) = true
   len   : (s.A.length : Int) = s.lt - s.lb
   /-- memory-side window: what a thief may read (indices below the memory value of `top`) -/
-  mwin  : ∀ k : Nat, k < s.A.length → s.lb + k < s.top → s.ptr (s.lb + k) = s.A[k]?
+  mwin  : ∀ k : Nat, k < s.A.length → (s.lb + k < s.top ∨ resetting s.opc = true) → s.ptr (s.lb + k) = s.A[k]?
+  shz   : resetting s.opc = false → s.sh = 0
   mtop  : resetting s.opc = false → s.top ≤ s.lt
   lbase : resetting s.opc = false → s.base = s.lb + (if s.tr = true then 1 else 0)
   trn   : s.tr = true → ∃ p, s.lock = .thief p
@@ -109,6 +169,13 @@ structure Inv (s : St) : Prop where
   -- owner
   carryC : carry s.opc = true → CarryShape s.bufO s.top s.lt s.ptr s.A
   pu0f  : ∀ e t, s.opc = .pu0f e t → t = s.lt
+  stuck : s.opc = .stuck → s.bufO = [] ∧ s.top = s.lt ∧ s.lt = s.size ∧ s.lb = 0
+  pul   : ∀ e, s.opc = .pul e → s.bufO = [] ∧ s.top = s.lt ∧ s.lt = s.size
+  pub   : ∀ e, s.opc = .pub e → s.bufO = [] ∧ s.top = s.lt ∧ s.lt = s.size
+  pum   : ∀ e off, s.opc = .pum e off → s.bufO = [] ∧ s.top = s.lt
+  pus   : ∀ e off, s.opc = .pus e off → Rc1Shape s.bufO s.top s.base s.lb s.lt s.sh off
+  puv   : ∀ e off, s.opc = .puv e off → Rc2Shape s.bufO s.top s.base s.lb s.lt s.sh off
+  pux   : ∀ e t, s.opc = .pux e t → t = s.lt + s.sh ∧ RcShape s.bufO s.top s.base s.lb s.lt s.sh
   pu1   : ∀ e t, s.opc = .pu1 e t → s.bufO = [] ∧ s.top = s.lt ∧ t = s.lt
   pu2   : ∀ e t, s.opc = .pu2 e t → t = s.lt ∧ s.top = s.lt ∧ Pu2Shape s.bufO s.ptr e t
   pof   : ∀ t, s.opc = .pof t → s.lt = t + 1 ∧ PofShape s.bufO s.top s.ptr s.A t
@@ -118,16 +185,31 @@ structure Inv (s : St) : Prop where
   po3   : ∀ t x, s.opc = .po3 t x → s.bufO = [] ∧ s.top = t ∧ s.lt = t ∧ s.ptr t = some x ∧ s.lb ≤ t ∧ s.flO = some x
   po5   : ∀ t x, s.opc = .po5 t x → s.bufO = [] ∧ s.top = t ∧ s.lt = t ∧ s.ptr t = some x ∧ s.flO = some x
   po5b  : ∀ t r, s.opc = .po5b t r → s.bufO = [] ∧ s.top = t ∧ s.lt = t ∧ r = s.flO
+  po5c  : ∀ t r, s.opc = .po5c t r → r = s.flO ∧ s.top = s.lt ∧ Po5cShape s.bufO s.lt
+  po5d  : ∀ r, s.opc = .po5d r → r = s.flO ∧ s.top = s.lt ∧ Po5cShape s.bufO s.lt
   po6   : ∀ r, s.opc = .po6 r → r = s.flO ∧ s.top = s.lt ∧ Po6Shape s.bufO s.lt
   po7   : s.opc = .po7 → s.bufO = [] ∧ s.lt = s.lb ∧ s.top = s.lt - 1
-  po8   : s.opc = .po8 → s.lt = s.lb ∧ s.lb = s.size / 2 ∧ Po8Shape s.bufO s.top (s.size / 2)
-  po9   : s.opc = .po9 → s.lt = s.lb ∧ s.lb = s.size / 2 ∧ Po9Shape s.bufO s.top s.base (s.size / 2)
-  stuckL : s.opc = .stuckL → s.bufO = [] ∧ s.top = s.lt
+  po8   : s.opc = .po8 → s.lt = s.lb ∧ s.lb = s.size / 2 ∧ s.sh = 0 ∧ Po8Shape s.bufO s.top (s.size / 2)
+  po9   : s.opc = .po9 → s.lt = s.lb ∧ s.lb = s.size / 2 ∧ s.sh = 0 ∧ Po9Shape s.bufO s.top s.base (s.size / 2)
+  stuckL : s.opc = .stuckL → s.bufO = [] ∧ s.top = s.lt ∧ s.lb = 0 ∧ s.lt = s.size
   pt1   : ∀ e, s.opc = .pt1 e → s.bufO = [] ∧ s.top = s.lt
-  pt6   : ∀ e, s.opc = .pt6 e → s.bufO = [] ∧ s.top = s.lt
-  pt7   : ∀ e b, s.opc = .pt7 e b → s.bufO = [] ∧ s.top = s.lt ∧ b = s.lb
-  pt8   : ∀ e b, s.opc = .pt8 e b → s.top = s.lt ∧ b = s.lb ∧ Pu2Shape s.bufO s.ptr e (b - 1)
-  pt9   : s.opc = .pt9 → s.top = s.lt ∧ InsShape s.bufO s.ptr s.lb
+  pt2   : ∀ e, s.opc = .pt2 e → s.bufO = [] ∧ s.top = s.lt ∧ s.lb = 0
+  pt3   : ∀ e off, s.opc = .pt3 e off → s.bufO = [] ∧ s.top = s.lt
+  pt4   : ∀ e off, s.opc = .pt4 e off → Rc1Shape s.bufO s.top s.base s.lb s.lt s.sh off
+  pt5   : ∀ e off, s.opc = .pt5 e off → Rc2Shape s.bufO s.top s.base s.lb s.lt s.sh off
+  pt6   : ∀ e, s.opc = .pt6 e → RcShape s.bufO s.top s.base s.lb s.lt s.sh
+  pt7   : ∀ e b, s.opc = .pt7 e b → b = s.lb + s.sh ∧ RcShape s.bufO s.top s.base s.lb s.lt s.sh
+  pt8   : ∀ e b, s.opc = .pt8 e b → b = s.lb + s.sh ∧
+            (RcPre s.bufO [.ptr (b - 1) (some e)] s.top s.lb s.lt s.sh ∨
+             (s.sh = 0 ∧ s.top = s.lt ∧ s.base = s.lb ∧ Pu2Shape s.bufO s.ptr e (b - 1)))
+  pt9   : s.opc = .pt9 →
+            (∃ e, RcPre s.bufO [.ptr (s.lb + s.sh - 1) (some e), .baseI (s.lb + s.sh - 1) e] s.top s.lb s.lt s.sh) ∨
+            (s.sh = 0 ∧ s.top = s.lt ∧ s.base = s.lb ∧ InsShape s.bufO s.ptr s.lb)
+  -- clear
+  asF   : s.opc = .assertFail → s.bufO = [] ∧ s.top = s.lt
+  cl1   : s.opc = .cl1 → s.bufO = [] ∧ s.top = s.lt
+  cl2   : s.opc = .cl2 → s.lt = s.lb ∧ s.lb = s.size / 2 ∧ s.sh = 0 ∧ Cl2Shape s.bufO s.base (s.size / 2)
+  cl3   : s.opc = .cl3 → s.lt = s.lb ∧ s.lb = s.size / 2 ∧ s.sh = 0 ∧ Cl3Shape s.bufO s.top s.base (s.size / 2)
   -- thieves
   tbufE : ∀ p, mayBuf (s.tpc p) = false → s.bufT p = []
   tkf   : ∀ p b, s.tpc p = .tkf b → s.lb = b ∧ TkfShape (s.bufT p) s.tr b
@@ -139,13 +221,32 @@ structure Inv (s : St) : Prop where
   tp2   : ∀ p e b, s.tpc p = .tp2 e b → b = s.lb
   tp3   : ∀ p e, s.tpc p = .tp3 e → Pu2Shape (s.bufT p) s.ptr e (s.lb - 1)
   tp4   : ∀ p ok, s.tpc p = .tp4 ok → InsShape (s.bufT p) s.ptr s.lb
+  -- wsapi take
+  wkf   : ∀ p b, s.tpc p = .wkf b → s.lb = b ∧ TkfShape (s.bufT p) s.tr b
+  wk2   : ∀ p b, s.tpc p = .wk2 b → s.lb = b ∧ s.tr = true
+  wk3   : ∀ p b, s.tpc p = .wk3 b → s.lb = b ∧ s.tr = true ∧ s.A ≠ [] ∧ s.ptr b = s.A.head? ∧
+            (b < s.top ∨ (popWin s.opc = true ∧ s.bufO = []))
+  wkd   : ∀ p b r, s.tpc p = .wkd b r → s.lb = b ∧ s.tr = true ∧ s.A ≠ [] ∧ r = s.A.head? ∧
+            (b < s.top ∨ (popWin s.opc = true ∧ s.bufO = []))
+  wk4   : ∀ p r, s.tpc p = .wk4 r → r = s.flT
+  wk4u  : ∀ p r, s.tpc p = .wk4u r → r = s.flT ∧ Wk4uShape (s.bufT p)
+  wk5   : ∀ p b, s.tpc p = .wk5 b → s.lb = b ∧ s.tr = true
+  wk6   : ∀ p, s.tpc p = .wk6 → Tk6Shape (s.bufT p) s.tr s.lb
+  -- wsapi peek
+  vkf   : ∀ p b, s.tpc p = .vkf b → s.lb = b ∧ TkfShape (s.bufT p) s.tr b
+  vk2   : ∀ p b, s.tpc p = .vk2 b → s.lb = b ∧ s.tr = true
+  vk3   : ∀ p b, s.tpc p = .vk3 b → s.lb = b ∧ s.tr = true
+  vk4   : ∀ p b r, s.tpc p = .vk4 b r → s.lb = b ∧ s.tr = true
+  vk5   : ∀ p b, s.tpc p = .vk5 b → s.lb = b ∧ s.tr = true ∧ Vk5Shape (s.bufT p)
+  vu    : ∀ p, s.tpc p = .vu → VuShape (s.bufT p) s.tr s.lb
 
 section ForceAux
 open Lean Meta in
 run_meta do
   let env ← getEnv
-  for f in [``ownerLocked, ``thiefLocked, ``carry, ``mayBuf, ``notTrans, ``resetting, ``ownerFlight, ``thiefFlight,
-            ``stepO, ``stepT, ``step, ``applySto, ``viewTop, ``viewBase, ``viewPtr, ``releaseO, ``releaseT] do
+  for f in [``ownerLocked, ``thiefLocked, ``carry, ``popWin, ``mayBuf, ``notTrans, ``resetting, ``ownerFlight, ``thiefFlight,
+            ``stepO, ``stepT, ``stepD, ``step, ``applySto, ``viewTop, ``viewBase, ``viewPtr, ``viewCache,
+            ``releaseO, ``releaseT] do
     for i in [1, 2, 3, 4, 5, 6, 7, 8] do
       let n := f ++ (Name.mkSimple s!"match_{i}")
       if env.contains n then
